@@ -86,7 +86,9 @@ def impl_history(case):
         res = {"first": st1, "file_exists": exists, "content": content}
         if exists:
             with contextlib.redirect_stdout(io.StringIO()):
-                locs2 = collect_feature_locations(["@rerun.txt"])
+                # the rerun file fed back alone, or behind a whole feature file named on the command line
+                locs2 = collect_feature_locations(([os.path.join("features", case["whole_first"])] if case.get("whole_first") else [])
+                                                  + ["@rerun.txt"])
             ran2, st2 = run(locs2)
             res["second_touched"] = sorted(set(x[5:] if x.startswith("HOOK:") else x for x in ran2))
             res["second"] = st2
@@ -113,6 +115,9 @@ def oracle(case, obs):
         out.append(("rerun file lists %s, unsuccessful scenarios are %s" % (listed, want), sig))
         return out
     want_names = sorted(set(n for f, n, line in unsuccessful))
+    if case.get("whole_first"):
+        # "features/X.feature @rerun.txt": all of X, and of the other files exactly the listed scenarios
+        want_names = sorted(set(want_names) | set(n for f, n, s, line in obs["first"] if f == case["whole_first"]))
     if obs["second_touched"] != want_names:
         extra = [x for x in obs["second_touched"] if x not in want_names]
         sig = "feedback-runs-unlisted-scenario" if extra else "feedback-skips-listed-scenario"
@@ -190,7 +195,10 @@ def suites(tier, seed):
         prog["cfg"]["faults"] = [["before_scenario", nm] for nm in hooknames]
         inv = {v: k for k, v in linemap.items()}
         hookfail = [inv[nm] for nm in hooknames if nm in inv]
-        cases.append({"files": files, "order": [fnames[f["id"]] for f in feats], "hookfail": hookfail, "linemap": linemap, "stale": (i % 7 == 0) or rnd.random() < 0.2, "prog": prog,
+        whole_first = None
+        if len(feats) > 1 and i % 3 == 1 and not prog["cfg"]["dry_run"]:
+            whole_first = fnames[feats[rnd.randrange(len(feats))]["id"]]
+        cases.append({"whole_first": whole_first, "files": files, "order": [fnames[f["id"]] for f in feats], "hookfail": hookfail, "linemap": linemap, "stale": (i % 7 == 0) or rnd.random() < 0.2, "prog": prog,
                       "dry_run": prog["cfg"]["dry_run"]})
     return [{"name": "histories", "cases": cases, "impl": impl_history, "oracle": oracle,
              "nontrivial": lambda c, o: o["file_exists"] and 0 < len([1 for x in o["first"] if x[2] in FAILING]) < len(o["first"]),
